@@ -77,7 +77,7 @@ def c07(ctx):
     ctx.coverage["exhaustive"] = True
     traces, metas = [], []
     # (C) spec -> code: simulated behaviours replayed on the real wsgi.input
-    behs, _ = tlc.simulate_behaviours("BodyIO", cfg, num=300 if ctx.quick else 2000, depth=8, seed=ctx.seed,
+    behs, _ = tlc.simulate_behaviours("BodyIO", cfg, num=300 if ctx.quick else 6000, depth=8, seed=ctx.seed,
                                       name="BodyIO_sim")
     nsteps = 0
     for beh in behs:
@@ -103,7 +103,8 @@ def c07(ctx):
     ctx.coverage["replayed_calls"] = nsteps
     # (P) real scale
     lens = [0, 1, 2, 5, 1023, 1024, 1025, 2049, 5000, 20000] if ctx.quick else [0, 1, 2, 3, 5, 100, 1022, 1023, 1024, 1025, 2047, 2048, 2049, 4096, 5000, 8191, 8192, 8193, 20000]
-    reps = 2 if ctx.quick else 6
+    reps = 2 if ctx.quick else 20
+    ojobs = []
     for blen in lens:
         for nlstyle in ("none", "dense", "edges", "few", "all"):
             if nlstyle == "all" and blen > 200:
@@ -131,11 +132,33 @@ def c07(ctx):
                         prog = rand_program(rng, 6 if ctx.quick else 30)
                         if rng.random() < 0.15:
                             prog = []            # the application ignores its input altogether
-                        ev = drv.run_program(stream, cuts, prog, body, source=rng.choice(["iter", "sock", "tls"]), cfgkw=cfgkw, follower=fol)
+                        source = rng.choice(["iter", "sock", "tls"])
+                        meta = {"kind": "real", "blen": blen, "nl": nlstyle, "framing": framing, "layout": lay[:10],
+                                "prog": prog, "ncuts": len(cuts), "cuts": cuts[:20], "trailers": bool(trailers), "small_limits": small,
+                                "method": method.decode()}
+                        if rng.random() < 0.2 and len(stream) < 30000:
+                            # repeated in an interpreter started with -O (assert statements compiled out)
+                            ojobs.append(({"stream": stream.decode("latin-1"), "cuts": cuts, "prog": [list(x) for x in prog],
+                                           "body": body.decode("latin-1"), "source": source, "cfgkw": cfgkw,
+                                           "follower": fol.decode("latin-1")}, {"blen": blen, "nls": nls}, dict(meta, kind="real-O")))
+                        ev = drv.run_program(stream, cuts, prog, body, source=source, cfgkw=cfgkw, follower=fol)
                         traces.append({"blen": blen, "nls": nls, "ev": ev})
-                        metas.append({"kind": "real", "blen": blen, "nl": nlstyle, "framing": framing, "layout": lay[:10],
-                                      "prog": prog, "ncuts": len(cuts), "cuts": cuts[:20], "trailers": bool(trailers), "small_limits": small,
-                                      "method": method.decode()})
+                        metas.append(meta)
+    if ojobs:
+        import subprocess
+        import sys
+        p = subprocess.run([sys.executable, "-O", "-B", os.path.abspath(drv.__file__)], input=json.dumps([j for j, _, _ in ojobs]),
+                           capture_output=True, text=True, timeout=900,
+                           env=dict(os.environ, VERIF_REPO=os.environ.get("VERIF_REPO", "/repo")))
+        if p.returncode != 0:
+            raise RuntimeError("body_io driver under -O failed: %s" % p.stderr[-1500:])
+        res = json.loads(p.stdout)
+        if not res["optimized"]:
+            raise RuntimeError("body_io batch driver did not run optimized")
+        for (j, tr, meta), ev in zip(ojobs, res["results"]):
+            traces.append(dict(tr, ev=ev))
+            metas.append(meta)
+        ctx.coverage["runs_under_python_O"] = len(ojobs)
     # (P) the same through the workers' connection handling: the rest of a body the application did not read arrives
     # after the response (keep-alive connection handed back to the poller / the handler loop in between)
     worker_level(ctx, traces, metas)
@@ -145,7 +168,7 @@ def c07(ctx):
         if v == "ok":
             continue
         e = t["ev"][step - 1] if step >= 1 else {}
-        sig = "C07/%s/op=%s/framing=%s" % (v, e.get("op", e.get("e")), m.get("framing"))
+        sig = "C07/%s/op=%s/framing=%s%s" % (v, e.get("op", e.get("e")), m.get("framing"), ",python-O" if m.get("kind") == "real-O" else "")
         ctx.violation(sig, "%s at call %d (%s): %s" % (v, step, e, json.dumps(m)[:300]), {"trace": t, "meta": m})
     for t, m in list(zip(traces, metas))[:1] + list(zip(traces, metas))[-2:]:
         ctx.sample({"blen": t["blen"], "events": t["ev"][:6], "meta": {k: m[k] for k in m if k not in ("body", "cuts")}})
